@@ -928,7 +928,7 @@ def _run(ck, work, only=None):
         ln, fr = c.info[k]["len"], c.info[k]["frames"]
         must = [0, 1, 2, 3, ln - 1] + [x for b in fr for x in (b - 1, b, b + 1) if 0 < x < ln]
         must += [n for (kk, n) in observed.values() if kk == k and n < ln]
-        extra = [rng.randrange(1, ln) for _ in range(ck.budget(14, 900))]
+        extra = [rng.randrange(1, ln) for _ in range(ck.budget(14, 600))]
         seen = set()
         for n in must + extra:
             if n not in seen and 0 <= n < ln:
@@ -1069,7 +1069,7 @@ def _run(ck, work, only=None):
         return st
 
     mcases = []
-    nsch = ck.budget(18, 240)
+    nsch = ck.budget(18, 200)
     for i in range(nsch):
         r = random.Random(f"{ck.seed}/sched/{i}")
         n = r.choice([2, 2, 3, 3, 4])
